@@ -105,6 +105,10 @@ class RunGuard:
             self.old = None
 
 
+# checks whose quick tier is short enough to afford the alt-config pass on every change (total stays <= ~35 s)
+ALT_CONFIG_IN_QUICK = {"C01", "C02", "C07", "C11", "C14", "C15", "C16", "C17", "C19", "C20"}
+
+
 def alt_config_pass(plug, ctx, res):
     """Second, quick-sized pass of the plug-in's streams with the package's process-wide hardware flag switched on
     (netqasm.runtime.settings.set_is_using_hardware(True), what the `netqasm run --hardware` entry point does).
@@ -274,7 +278,8 @@ def main():
     try:
         guard.arm()
         res = plug.run(ctx)
-        if (args.tier == "thorough" or os.environ.get("VERIF_ALT_CONFIG") == "1") and getattr(plug, "ALT_CONFIG", True):
+        if (args.tier == "thorough" or prop in ALT_CONFIG_IN_QUICK or os.environ.get("VERIF_ALT_CONFIG") == "1") \
+                and getattr(plug, "ALT_CONFIG", True):
             alt_config_pass(plug, ctx, res)
         guard.disarm()
     except Exception as exc:
